@@ -2,7 +2,7 @@
 import io
 import os
 import pathlib
-from typing import Any, Dict, List
+from typing import Any, Dict, List, Optional, Tuple
 
 import aas_core_codegen.smoke.main as smoke
 
@@ -32,3 +32,96 @@ def recorded(seed: int = 0, **_: Any) -> Dict[str, Any]:
                              "observed": "stderr differs from the recorded expectation" if rc == 1 else "exit status is not 1",
                              "got": got[:300], "expected": exp[:300]})
     return {"cases": n, "distinct": n, "failures": failures, "samples": samples[:3], "exhaustive": True}
+
+
+# ---------------------------------------------------------------------------------------------------------------
+# bounded differential: the smoke tool against the stages it stands for, on mutants of valid meta-models
+
+def _reference(model_path: pathlib.Path) -> Tuple[bool, str]:
+    """(everything succeeds, first failing stage): front end, constraint inference, C# types and verification --
+    called directly, independently of smoke/main.py (same dummy snippets as documented there)."""
+    from aas_core_codegen import infer_for_schema, intermediate, run, specific_implementations
+    from aas_core_codegen.common import Stripped
+    from aas_core_codegen.csharp import common as csharp_common, lib as csharp_lib
+    loaded, why = run.load_model(model_path)
+    if why is not None or loaded is None:
+        return False, "front end"
+    st = loaded[0]
+    _, errs = infer_for_schema.infer_constraints_by_class(symbol_table=st)
+    if errs is not None:
+        return False, "inference"
+    verified, errs = csharp_lib.verify_for_types(st)
+    if errs is not None or verified is None:
+        return False, "csharp verify_for_types"
+    spec: Dict[Any, Any] = {}
+    dummy = Stripped("DUMMY IMPLEMENTATION")
+    for cls in st.classes:
+        if cls.is_implementation_specific:
+            spec[specific_implementations.ImplementationKey(f"Types/{cls.name}/{cls.name}.cs")] = dummy
+            continue
+        for method in cls.methods:
+            if isinstance(method, intermediate.ImplementationSpecificMethod):
+                spec[specific_implementations.ImplementationKey(f"Types/{cls.name}/{method.name}.cs")] = dummy
+    for verification in st.verification_functions:
+        if isinstance(verification, intermediate.ImplementationSpecificVerification):
+            spec[specific_implementations.ImplementationKey(f"Verification/{verification.name}.cs")] = dummy
+    ns = csharp_common.NamespaceIdentifier("DummyNamespace")
+    _, errs = csharp_lib.generate_types(symbol_table=verified, namespace=ns, spec_impls=spec)
+    if errs is not None:
+        return False, "csharp generate_types"
+    _, errs = csharp_lib.generate_verification(symbol_table=st, namespace=ns, spec_impls=spec)
+    if errs is not None:
+        return False, "csharp generate_verification"
+    return True, ""
+
+
+def _differential_one(args: Any) -> Optional[Dict[str, Any]]:
+    import io
+    import tempfile
+    from aas_core_codegen.smoke import main as smoke_main
+    what, text = args
+    with tempfile.TemporaryDirectory() as d:
+        p = pathlib.Path(d) / "meta_model.py"
+        p.write_text(text, encoding="utf-8")
+        try:
+            ok, stage = _reference(p)
+        except BaseException:  # noqa
+            return None  # a crash of a stage is C01 / C02's business
+        err = io.StringIO()
+        try:
+            rc = smoke_main.execute(model_path=p, stderr=err)
+        except BaseException as e:  # noqa
+            return {"what": what, "observed": f"the smoke tool raised {type(e).__name__}: {str(e)[:200]}", "meta_model": text}
+        if rc == 0 and not ok:
+            return {"what": what, "observed": f"the smoke tool exits 0 although the stage '{stage}' fails", "meta_model": text}
+        if rc != 0 and ok:
+            return {"what": what, "observed": f"the smoke tool exits {rc} although every stage succeeds: {err.getvalue()[:300]}",
+                    "meta_model": text}
+        if rc != 0 and (rc != 1 or not err.getvalue().strip()):
+            return {"what": what, "observed": f"exit status {rc} with the report {err.getvalue()[:100]!r}", "meta_model": text}
+        if rc == 0 and err.getvalue() != "":
+            return {"what": what, "observed": f"exit status 0 but stderr is {err.getvalue()[:100]!r}", "meta_model": text}
+    return None
+
+
+def differential(seed: int = 0, stride: int = 3, jobs: int = 16, **_: Any) -> Dict[str, Any]:
+    import multiprocessing as mp
+    from native import c01, c02, c06, c07, c11
+    tasks = [("base model", c06.BASE), ("base model 2", c02.BASE2), ("harness model", c11.MODEL)]
+    for base_name, base in (("base model", c06.BASE), ("harness model", c11.MODEL)):
+        for k, (what, line, text) in enumerate(c01._mutants(base)):
+            if k % stride == 0:
+                tasks.append((f"{what} at line {line} of the {base_name}", text))
+    # invariants that the type inference / the C# transpiler reject, next to accepted ones
+    c07.reorder_props()
+    exprs = c07.candidates()
+    for k in range(0, len(exprs), 40):
+        tasks.append((f"invariant {exprs[k]!r}", c07.build_model([exprs[k]])[0]))
+    with mp.get_context("fork").Pool(jobs) as pool:
+        res = pool.map(_differential_one, tasks, chunksize=8)
+    failures = [r for r in res if r is not None]
+    by_kind: Dict[str, Any] = {}
+    for f in failures:
+        by_kind.setdefault(f["observed"][:50], f)
+    return {"cases": len(tasks), "distinct": len(tasks), "failures": list(by_kind.values())[:6], "exhaustive": True,
+            "n_failing": len(failures), "samples": [{"meta_models": len(tasks)}]}
